@@ -46,7 +46,9 @@ TraceNext ==
        \/ Ev.a = "Insert" /\ Write(Ev.name, Ev.k, FALSE)
        \/ Ev.a = "Remove" /\ Write(Ev.name, Ev.k, TRUE)
        \/ Ev.a = "Batch"  /\ BatchCommit(Ev.items[1].name, Ev.items[1].k, Ev.items[1].del,
-                                         Ev.items[2].name, Ev.items[2].k, Ev.items[2].del)
+                                         Ev.items[2].name, Ev.items[2].k, Ev.items[2].del,
+                                         IF Has("dur") THEN Ev.dur ELSE "none")
+       \/ Ev.a = "StaleBatch" /\ StaleBatch(Ev.id, Ev.k, Ev.del, Ev.item.name, Ev.item.k, Ev.item.del)
        \/ Ev.a = "Clear"  /\ Clear(Ev.name)
        \/ Ev.a = "Ingest" /\ Ingest(Ev.name, ToSet(Ev.keys), ToSet(Ev.tombs))
        \/ Ev.a = "Rotate" /\ Rotate(Ev.name)
